@@ -299,3 +299,14 @@ Definition s17t_step (st : s17t) (x : step) : s17t :=
 
 Definition S17t (tr : list step) : bool :=
   s17t_ok (fold_left s17t_step tr (mk17t false false 0 true)).
+
+(* ================================================================== *)
+(* hypothesis of C01-C03: no write on the motion sink fails in this run *)
+Definition nowf (tr : list step) : bool :=
+  forallb (fun x => match x with Call SMotion (Write _) true => false | _ => true end) (flat_map snd tr).
+
+(* which machine an output belongs to *)
+Definition is_motion_out (x : out) : bool :=
+  match x with Call SMotion _ _ | LMotion | LStarted | LEnded | WinQ _ | Panic => true | _ => false end.
+Definition is_const_out (x : out) : bool := match x with Call SConst _ _ => true | _ => false end.
+Definition is_test_out (x : out) : bool := match x with Call STest _ _ => true | _ => false end.
